@@ -1,6 +1,8 @@
 package main
 
 import (
+	"os"
+	"flag"
 	"bytes"
 	"errors"
 	"fmt"
@@ -313,6 +315,29 @@ func c15(r *hx.Run) {
 			}
 		}
 	}
+	// provider without support, device path openable but not a TDX device (a regular file): the device's failure is the result
+	if f, err := os.CreateTemp("", "not-a-tdx-device"); err == nil {
+		f.Close()
+		defer os.Remove(f.Name())
+		if flag.Set("tdx_guest_device_path", f.Name()) == nil {
+			for _, e := range []bool{false, true} {
+				p := &scriptedProv{supported: false, bytes: []byte{1, 2, 3}, err: e}
+				var got []byte
+				var gerr error
+				res, stack := hx.Guard(func() string { got, gerr = client.GetRawQuote(p, [64]byte{7}); return "" })
+				obs, fail := "device-path err", ""
+				if res == "panic" {
+					obs, fail = "panic", "crash: "+strings.SplitN(stack, "\n", 2)[0]
+				} else if p.called != 0 {
+					obs, fail = "provider-used", "provider used although it reports no support"
+				} else if gerr == nil {
+					obs, fail = fmt.Sprintf("ok bytes=%d", len(got)), "unsupported provider, the device path opens but every request on it fails: the failure was lost (no error returned)"
+				}
+				r.Emit(fmt.Sprintf("# C15.fallback openable-non-device err=%d", hx.B(e)), obs, fail, fmt.Sprintf("fallback|%v", e), true, "prov", "fallback")
+			}
+			flag.Set("tdx_guest_device_path", "default")
+		}
+	}
 	// GetQuote = parse ∘ GetRawQuote: on the repository's sample quote served by the scripted device
 	c15GetQuote(r)
 	r.Exhaust = true
@@ -320,8 +345,26 @@ func c15(r *hx.Run) {
 }
 
 func c15GetQuote(r *hx.Run) {
-	raw := sampleQuote()
-	for _, trunc := range []int{len(raw), len(raw) - 1, 1019, 100, 0} {
+	sample := sampleQuote()
+	type gq struct {
+		raw   []byte
+		trunc int
+		name  string
+	}
+	var cases []gq
+	for _, trunc := range []int{len(sample), len(sample) - 1, 1019, 100} {
+		cases = append(cases, gq{sample, trunc, "sample"})
+	}
+	// raw quotes that END in zero bytes: zero fill after the quote (extra bytes) and a quote whose last signed byte is 0
+	for _, k := range []int{1, 2, 64} {
+		padded := append(append([]byte{}, sample...), make([]byte, k)...)
+		cases = append(cases, gq{padded, len(padded), fmt.Sprintf("sample+%dzeros", k)})
+	}
+	lastZero := append([]byte{}, sample...)
+	lastZero[len(lastZero)-1] = 0
+	cases = append(cases, gq{lastZero, len(lastZero), "last-byte-zero"})
+	for _, c := range cases {
+		raw, trunc := c.raw, c.trunc
 		if trunc > len(raw) || trunc <= 0 {
 			continue
 		}
@@ -342,6 +385,6 @@ func c15GetQuote(r *hx.Run) {
 			fail = "GetQuote result differs from parsing the raw quote"
 		}
 		obs := "getquote ok=" + fmt.Sprint(hx.B(err == nil))
-		r.Emit(fmt.Sprintf("# C15.getquote trunc=%d", trunc), obs, fail, fmt.Sprintf("gq|%d", trunc), true, "getquote")
+		r.Emit(fmt.Sprintf("# C15.getquote %s trunc=%d", c.name, trunc), obs, fail, fmt.Sprintf("gq|%s|%d", c.name, trunc), true, "getquote")
 	}
 }
